@@ -26,6 +26,8 @@ type c17gen struct {
 	g *Rng
 	s *c17snap
 	p dymnstypes.Params
+
+	queue []c17step // follow-up script in progress (c17_directed_test.go)
 }
 
 func (c *c17gen) acct() int { return c.g.Intn(c.h.nA) }
@@ -763,10 +765,11 @@ func (h *c17h) genTrace(g *Rng) {
 	for i := 0; i < nOps; i++ {
 		c.s = h.snap()
 		c.p = h.params()
-		l := c.next()
-		emit(l)
+		l := c.nextLine()
+		obs := emit(l)
 		emit("v")
 		c.s = h.snap()
+		c.followUp(l, obs)
 		for _, q := range c.queries() {
 			emit(q)
 		}
@@ -814,6 +817,11 @@ func TestC17(t *testing.T) {
 	}
 	r.Hit("witness-trace")
 	r.Trace()
+	// directed traces: the multi-boundary histories (order left uncompleted -> name expiry -> grace
+	// -> take-over -> old bidder) are in every run, whatever the seed and the budget
+	for _, s := range c17Directed() {
+		h.runDirected(s)
+	}
 	n := r.N(400, 4500)
 	for i := 0; i < n; i++ {
 		h.genTrace(r.Rng.Fork())
